@@ -119,6 +119,10 @@ pub enum Ty {
     BitVec(Prim, bool),
     /// type alias `name = inner` (printed by name, transparent otherwise)
     Alias(String, Box<Ty>),
+    /// `[T]` — only as an interning key of the scale-info model (identity of Vec / VecDeque)
+    Slice(Box<Ty>),
+    /// `str` — only as an interning key (identity of String)
+    StrSlice,
 }
 
 #[derive(Clone, Debug, PartialEq, Eq, Serialize, Deserialize)]
@@ -191,6 +195,10 @@ pub struct Program {
     pub markers: Vec<Marker>,
     /// closed types registered as roots, in order
     pub roots: Vec<Ty>,
+    /// module path (below the crate root) in which the whole program lives (corpus builds put
+    /// many programs into one crate); empty = crate root
+    #[serde(default)]
+    pub prefix: Vec<String>,
 }
 
 impl Ty {
@@ -204,7 +212,8 @@ impl Ty {
         let s = |t: &Ty| t.subst(args, prog);
         let sb = |t: &Ty| std::boxed::Box::new(t.subst(args, prog));
         match self {
-            Prim(_) | Str | Marker(_) | NonZero(_) | Duration | BitVec(..) | CowStr => self.clone(),
+            Prim(_) | Str | Marker(_) | NonZero(_) | Duration | BitVec(..) | CowStr | StrSlice => self.clone(),
+            Slice(t) => Slice(sb(t)),
             Param(i) => args[*i].clone(),
             Assoc(i, k) => match args[*i].strip_alias() {
                 Marker(j) => prog.markers[*j].assoc[*k].clone(),
@@ -253,11 +262,11 @@ impl Ty {
         f(self);
         match self {
             Prim(_) | Str | Marker(_) | NonZero(_) | Duration | BitVec(..) | CowStr | Param(_)
-            | Assoc(..) => {}
+            | Assoc(..) | StrSlice => {}
             Def(_, a) | Tuple(a) => a.iter().for_each(|t| t.walk(f)),
             Vec(t) | VecDeque(t) | Array(t, _) | Option(t) | Box(t) | Cow(t) | BTreeSet(t)
             | BinaryHeap(t) | Range(t) | RangeInclusive(t) | Phantom(t) | Compact(t)
-            | Alias(_, t) => t.walk(f),
+            | Alias(_, t) | Slice(t) => t.walk(f),
             Result(a, b) | BTreeMap(a, b) => {
                 a.walk(f);
                 b.walk(f)
@@ -267,6 +276,23 @@ impl Ty {
 }
 
 impl Program {
+    /// `crate::p::q` — where markers, aliases and the Cfg trait live
+    pub fn root_path(&self) -> String {
+        let mut p = vec!["crate".to_string()];
+        p.extend(self.prefix.iter().cloned());
+        p.join("::")
+    }
+
+    /// The same program living in module `name` (definitions' module paths are prefixed).
+    pub fn prefixed(&self, name: &str) -> Program {
+        let mut p = self.clone();
+        p.prefix = vec![name.to_string()];
+        for d in p.defs.iter_mut() {
+            d.module.insert(0, name.to_string());
+        }
+        p
+    }
+
     pub fn def_path(&self, d: usize) -> Vec<String> {
         let def = &self.defs[d];
         let mut p = vec![self.krate.clone()];
@@ -306,7 +332,7 @@ impl Program {
                 }
                 s
             }
-            Marker(j) => format!("crate::M{j}"),
+            Marker(j) => format!("{}::M{j}", self.root_path()),
             Vec(t) => format!("Vec<{}>", r(t)),
             VecDeque(t) => format!("VecDeque<{}>", r(t)),
             Array(t, n) => format!("[{}; {}]", r(t), n),
@@ -332,7 +358,9 @@ impl Program {
             Phantom(t) => format!("PhantomData<{}>", r(t)),
             Compact(t) => format!("Compact<{}>", r(t)),
             BitVec(s, msb) => format!("BitVec<{}, {}>", s.name(), if *msb { "Msb0" } else { "Lsb0" }),
-            Alias(n, _) => format!("crate::{n}"),
+            Alias(n, _) => format!("{}::{n}", self.root_path()),
+            Slice(t) => format!("[{}]", r(t)),
+            StrSlice => "str".into(),
         }
     }
 
@@ -372,6 +400,17 @@ impl Program {
     pub fn render_source(&self, derives: &str) -> String {
         let mut out = String::new();
         out.push_str("#![allow(dead_code, unused_imports, non_camel_case_types, clippy::all)]\n");
+        out.push_str(&self.render_body(derives, true));
+        out
+    }
+
+    /// The program without the crate-level attribute; with a prefix everything is wrapped in
+    /// `pub mod <prefix> { .. }`.
+    pub fn render_body(&self, derives: &str, wrap: bool) -> String {
+        let mut out = String::new();
+        for seg in self.prefix.iter().filter(|_| wrap) {
+            out.push_str(&format!("pub mod {seg} {{\n"));
+        }
         let uses = "use scale_info::TypeInfo; use parity_scale_codec::{Encode, Decode, Compact}; use std::collections::{BTreeMap, BTreeSet, BinaryHeap, VecDeque}; use std::borrow::Cow; use core::ops::{Range, RangeInclusive}; use core::num::*; use core::time::Duration; use core::marker::PhantomData; use bitvec::{vec::BitVec, order::{Lsb0, Msb0}};\n";
         out.push_str(uses);
         out.push_str("pub trait Cfg { ");
@@ -391,7 +430,7 @@ impl Program {
         for (n, t) in self.aliases() {
             out.push_str(&format!("pub type {n} = {};\n", self.render_ty(&t, None)));
         }
-        // group defs by module
+        // group defs by module (below the prefix)
         #[derive(Default)]
         struct Mod {
             children: std::collections::BTreeMap<String, Mod>,
@@ -400,22 +439,25 @@ impl Program {
         let mut root = Mod::default();
         for (i, d) in self.defs.iter().enumerate() {
             let mut m = &mut root;
-            for seg in &d.module {
+            for seg in d.module.iter().skip(self.prefix.len()) {
                 m = m.children.entry(seg.clone()).or_default();
             }
             m.defs.push(i);
         }
-        fn emit(p: &Program, m: &Mod, out: &mut String, derives: &str, uses: &str, depth: usize) {
+        fn emit(p: &Program, m: &Mod, out: &mut String, derives: &str, uses: &str) {
             for &i in &m.defs {
                 out.push_str(&p.render_def(i, derives));
             }
             for (name, c) in &m.children {
-                out.push_str(&format!("pub mod {name} {{\n{uses}use crate::Cfg;\n"));
-                emit(p, c, out, derives, uses, depth + 1);
+                out.push_str(&format!("pub mod {name} {{\n{uses}use {}::Cfg;\n", p.root_path()));
+                emit(p, c, out, derives, uses);
                 out.push_str("}\n");
             }
         }
-        emit(self, &root, &mut out, derives, uses, 0);
+        emit(self, &root, &mut out, derives, uses);
+        for _ in self.prefix.iter().filter(|_| wrap) {
+            out.push_str("}\n");
+        }
         out
     }
 
@@ -889,10 +931,10 @@ impl<'r, R: Rng> ProgGen<'r, R> {
                 kind,
                 docs: if self.cfg.docs && self.chance(0.3) { vec![format!("Docs of {}", heads[me].1)] } else { vec![] },
             };
-            make_compilable(&mut def);
+            make_compilable(&mut def, me);
             defs.push(def);
         }
-        let mut prog = Program { krate: "krate".into(), defs, markers, roots: vec![] };
+        let mut prog = Program { krate: "krate".into(), defs, markers, roots: vec![], prefix: vec![] };
         // instantiation set
         let mut roots = Vec::new();
         let order: Vec<usize> = {
@@ -949,7 +991,7 @@ fn is_defaultable(t: &Ty) -> bool {
 
 /// Rust rejects unused type parameters (E0392): add a PhantomData field for parameters that no
 /// field mentions — exactly what a human author has to do.
-pub fn make_compilable(def: &mut Def) {
+pub fn make_compilable(def: &mut Def, me: usize) {
     // drop markers added by an earlier call (the definition may have been edited since)
     match &mut def.kind {
         DefKind::Struct(_, fs) => fs.retain(|f| !(f.name.as_deref() == Some("_marker") && matches!(f.ty, Ty::Phantom(_)))),
@@ -960,12 +1002,23 @@ pub fn make_compilable(def: &mut Def) {
         return;
     }
     let mut used = vec![false; np];
-    let mut mark = |t: &Ty| {
-        t.walk(&mut |t| match t {
-            Ty::Param(i) | Ty::Assoc(i, _) => used[*i] = true,
+    // a parameter mentioned only through the definition's own recursion does not count as used
+    // (rustc: "type parameter is only used recursively")
+    fn mark_in(t: &Ty, me: usize, used: &mut Vec<bool>) {
+        use Ty::*;
+        match t {
+            Param(i) | Assoc(i, _) => used[*i] = true,
+            Def(d, _) if *d == me => {}
+            Def(_, a) | Tuple(a) => a.iter().for_each(|x| mark_in(x, me, used)),
+            Vec(x) | VecDeque(x) | Array(x, _) | Option(x) | Box(x) | Cow(x) | BTreeSet(x) | BinaryHeap(x) | Range(x) | RangeInclusive(x) | Phantom(x) | Compact(x) | Alias(_, x) | Slice(x) => mark_in(x, me, used),
+            Result(a, b) | BTreeMap(a, b) => {
+                mark_in(a, me, used);
+                mark_in(b, me, used)
+            }
             _ => {}
-        })
-    };
+        }
+    }
+    let mut mark = |t: &Ty| mark_in(t, me, &mut used);
     match &def.kind {
         DefKind::Struct(_, fs) => fs.iter().for_each(|f| mark(&f.ty)),
         DefKind::Enum(vs) => vs.iter().for_each(|v| v.fields.iter().for_each(|f| mark(&f.ty))),
